@@ -844,4 +844,46 @@ theorem double_entry_points_total {F : Type} [FloatLike F] (s : List Nat) (h : 0
 theorem igris_ftoa32_is_f64toa {F D : Type} [FloatLike F] (cvt : D → F) (d : D) (p : Int) :
     igrisFtoa32 cvt d p = f64toa cvt d p := rfl
 
+/-! ## L. round 3b — "the end of the literal" is a function of the text
+
+  The grammar theorems speak about texts of the form `L.text ++ rest` with `Stops L rest` (the tail does not continue
+  the literal): that is how "the longest prefix of the text that matches the grammar" is expressed.  This section
+  states separately that such a decomposition is UNIQUE, so "the end of the literal" - the offset every entry point
+  reports - does not depend on how the text is read as literal + tail. -/
+
+/-- Two readings of ONE text as a well-formed literal followed by a tail that does not continue it are the same
+    reading: the same characters belong to the literal (in particular the same END), the same tail follows, and
+    the same decimal value is denoted.  (Proof: the exact-arithmetic parser is a function of the text and returns
+    value and end of either reading - `atof64_grammar`.)  Hence no well-formed literal that is a prefix of the text
+    and whose own tail stops can be longer or shorter than the reported end. -/
+theorem literal_end_unique (L L' : Literal) (rest rest' : List Nat) (hwf : L.WF) (hst : Stops L rest)
+    (hwf' : L'.WF) (hst' : Stops L' rest') (h : L.text ++ rest = L'.text ++ rest') :
+    L.text = L'.text ∧ rest = rest' ∧ L.value = L'.value := by
+  have h1 := atof64_grammar L rest hwf hst
+  have h2 := atof64_grammar L' rest' hwf' hst'
+  rw [h, h2] at h1
+  have hp := Prod.mk.inj (Option.some.inj h1)
+  have hl : L.text.length = L'.text.length := hp.2.symm
+  have ha := List.append_inj h hl
+  exact ⟨ha.1, ha.2, hp.1.symm⟩
+
+/-- the hypotheses are satisfiable: "1" followed by "x\0" -/
+example : (⟨none, [49], none, none⟩ : Literal).WF ∧ Stops ⟨none, [49], none, none⟩ [120, 0] := by
+  refine ⟨⟨?_, ?_, ?_⟩, by decide, ?_, ?_, ?_, ?_⟩
+  · intro c hc
+    have : c = 49 := by simpa using hc
+    subst this; decide
+  · intro fp h; cases h
+  · intro ch s ds h; cases h
+  · show ¬ (48 ≤ 120 ∧ 120 ≤ 57); decide
+  · intro _; decide
+  · intro _ _; decide
+  · intro _ h; cases h
+
+/-- and a reading whose tail CONTINUES the literal is excluded by `Stops`: "1" followed by "5x\0" -/
+example : ¬ Stops ⟨none, [49], none, none⟩ [53, 120, 0] := by
+  intro h
+  have h2 : ¬ (48 ≤ 53 ∧ 53 ≤ 57) := h.2.1
+  exact h2 (by decide)
+
 end Igris.C12
